@@ -1,4 +1,5 @@
 import PytezosModel.Michelson.Interp.Impl
+import PytezosModel.Proofs.InterpTables
 /-! The protected-prefix stack of pytezos against plain lists: a stack whose protected prefix is `pre` and whose
 visible part is `st` behaves, for every primitive, like the list `st`. -/
 namespace Interp
@@ -8,15 +9,24 @@ def stk (pre st : List Val) : Stack := ⟨pre ++ st, pre.length⟩
 
 namespace Stack
 
+/-- the three index expressions of stack.py are `self.protected` (`Proofs/InterpTables.lean`) -/
+@[simp] theorem idx_push (s : Stack) : s.idx Generated.C01.pushIndex = s.protected_ := by rw [pushIndex_eq]; rfl
+@[simp] theorem idx_pop (s : Stack) : s.idx Generated.C01.popIndex = s.protected_ := by rw [popIndex_eq]; rfl
+@[simp] theorem idx_peek (s : Stack) : s.idx Generated.C01.peekIndex = s.protected_ := by rw [peekIndex_eq]; rfl
+
 @[simp] theorem push_mk (pre st : List Val) (v : Val) : (stk pre st).push v = stk pre (v :: st) := by
   simp [push, stk]
 
 @[simp] theorem peek_mk_cons (pre st : List Val) (a : Val) : (stk pre (a :: st)).peek = .ok a := by
   simp [peek, stk]
 
+theorem ite_self_stuck {α : Type} (c : Prop) [Decidable c] (r : Res α) :
+    (if c then Res.stuck else if c then Res.stuck else r) = if c then Res.stuck else r := by
+  by_cases h : c <;> simp [h]
+
 theorem pop_mk (pre st : List Val) (n : Nat) :
     (stk pre st).pop n = if st.length < n then .stuck else .ok (st.take n, stk pre (st.drop n)) := by
-  simp only [pop, stk, List.length_append, Nat.add_sub_cancel_left, List.drop_left, List.take_left]
+  simp only [pop, idx_pop, stk, List.length_append, Nat.add_sub_cancel_left, List.drop_left, List.take_left, ite_self_stuck]
 
 @[simp] theorem pop1_mk_cons (pre st : List Val) (a : Val) : (stk pre (a :: st)).pop1 = .ok (a, stk pre st) := by
   simp [pop1, pop_mk]
